@@ -348,6 +348,20 @@ impl Report {
                 self.known_hit(&f.signature);
                 Ok(())
             }
+            // development aid only (never set by registered commands): shrink one signature
+            Err(f) if !self.strict && std::env::var("VERIF_ONLY_SIG").map(|s| !f.signature.contains(&s)).unwrap_or(false) => Ok(()),
+            // development aid only (never set by registered commands): list every failure
+            // signature instead of stopping at the first one
+            Err(f) if !self.strict && std::env::var("VERIF_SURVEY").is_ok() => {
+                let mut g = self.inner.lock().unwrap();
+                let first = !g.known_hits.contains_key(&format!("SURVEY {}", f.signature));
+                *g.known_hits.entry(format!("SURVEY {}", f.signature)).or_insert(0) += 1;
+                drop(g);
+                if first {
+                    println!("SURVEY first hit: {}\n{}", f.signature, f.message.lines().take(12).collect::<Vec<_>>().join("\n"));
+                }
+                Ok(())
+            }
             other => other,
         }
     }
@@ -555,10 +569,14 @@ where
                 let make = &make;
                 let f = &f;
                 let seed = derive_seed(report.seed, name, w as u64);
-                scope.spawn(move || {
-                    let strat = make();
-                    run_prop_seeded(report, seed, per, strat, f)
-                })
+                // generous stacks: the compiler under test recurses deeply on nested selections
+                std::thread::Builder::new()
+                    .stack_size(512 << 20)
+                    .spawn_scoped(scope, move || {
+                        let strat = make();
+                        run_prop_seeded(report, seed, per, strat, f)
+                    })
+                    .expect("spawn worker")
             })
             .collect();
         for h in handles {
